@@ -278,6 +278,55 @@ Definition Source_hasSource (s : tree) (v : string) : bool :=
 Definition Source_parentSource (b : block) (id : string) : res (option tree) :=
   bind (Block_findSources (fun s => Source_hasSource s id) size_max (b_sources b)) (fun srcs => Ok (hd_error srcs)).
 
+(** * Further public routes (route audit): filter constructors, filtered enumerations, block-restricted overloads *)
+
+(** TypeFilter(str, exact = false): boost::regex_search with boost::regex::icase; for strings without regex
+    metacharacters that is a case-insensitive substring test (ASCII case folding). *)
+Definition lower_ascii (c : ascii) : ascii :=
+  let n := nat_of_ascii c in if Nat.leb 65 n && Nat.leb n 90 then ascii_of_nat (n + 32) else c.
+Fixpoint lower (s : string) : string :=
+  match s with EmptyString => EmptyString | String c r => String (lower_ascii c) (lower r) end.
+Fixpoint contains (p s : string) : bool :=
+  if String.prefix p s then true else match s with EmptyString => false | String _ r => contains p r end.
+Definition TypeFilterLoose (type : string) (e : tree) : bool := contains (lower type) (lower (n_type (label e))).
+
+(** MetadataFilter<Source>(sec_id) and SourceFilter<Source>(src_id) passed by the user to a source search *)
+Definition SourceMetadataFilter (roots : list tree) (sec_id : string) (s : tree) : bool :=
+  MetadataFilter roots sec_id (n_meta (label s)).
+Definition SourceSourceFilter (src_id : string) (s : tree) : bool := Source_hasSource s src_id.
+
+(** ImplContainer::getEntities(getEntity, n, filter): for i in 0..n-1: candidate = getEntity(i); keep it if
+    candidate && filter(candidate).  sections(filter) / sources(filter) / dataArrays(filter) ... *)
+Definition getEntities {A} (filter : A -> bool) (entities : list A) : list A := List.filter filter entities.
+Definition Section_sections (filter : tree -> bool) (self : tree) : list tree := getEntities filter (kids self).
+Definition File_sections (filter : tree -> bool) (roots : list tree) : list tree := getEntities filter roots.
+Definition Source_sources (filter : tree -> bool) (self : tree) : list tree := getEntities filter (kids self).
+Definition Block_sources (filter : tree -> bool) (b : block) : list tree := getEntities filter (b_sources b).
+Definition Block_dataArrays (filter : ent -> bool) (b : block) : list ent := getEntities filter (b_arrays b).
+Definition Block_tags (filter : ent -> bool) (b : block) : list ent := getEntities filter (b_tags b).
+Definition Block_multiTags (filter : ent -> bool) (b : block) : list ent := getEntities filter (b_mtags b).
+Definition File_blocks (filter : block -> bool) (f : file) : list block := getEntities filter (f_blocks f).
+Definition Section_properties (filter : string * string -> bool) (self : tree) : list (string * string) :=
+  getEntities filter (n_props (label self)).
+
+(** filters over data arrays / tags / multi-tags / blocks / properties *)
+Definition EntIdFilter (id : string) (e : ent) : bool := String.eqb (e_id e) id.
+Definition EntMetadataFilter (roots : list tree) (sec_id : string) (e : ent) : bool := MetadataFilter roots sec_id (e_meta e).
+Definition BlockIdFilter (id : string) (b : block) : bool := String.eqb (b_id b) id.
+Definition BlockMetadataFilter (roots : list tree) (sec_id : string) (b : block) : bool := MetadataFilter roots sec_id (b_meta b).
+Definition PropIdFilter (id : string) (p : string * string) : bool := String.eqb (fst p) id.
+Definition PropNameFilter (name : string) (p : string * string) : bool := String.eqb (snd p) name.
+
+(** Section::referringDataArrays(const Block &b) etc.: if (b) b.dataArrays(MetadataFilter(id())) else nothing *)
+Definition Section_referringDataArrays_in (f : file) (sec_id : string) (b : option block) : list ent :=
+  match b with Some b => Block_dataArrays (EntMetadataFilter (f_sections f) sec_id) b | None => [] end.
+Definition Section_referringTags_in (f : file) (sec_id : string) (b : option block) : list ent :=
+  match b with Some b => Block_tags (EntMetadataFilter (f_sections f) sec_id) b | None => [] end.
+Definition Section_referringMultiTags_in (f : file) (sec_id : string) (b : option block) : list ent :=
+  match b with Some b => Block_multiTags (EntMetadataFilter (f_sections f) sec_id) b | None => [] end.
+Definition Section_referringSources_opt (f : file) (sec_id : string) (b : option block) : res (list tree) :=
+  match b with Some b => Section_referringSources_in f sec_id b | None => Ok [] end.
+
 (** * Specification: level order and brute-force traversal (independent of the work lists) *)
 
 (** the first [k] levels of the forest [ts], concatenated: level 0 = the roots, level i+1 = the children of level i *)
@@ -389,3 +438,11 @@ Definition spec_inherited (roots : list tree) (self : tree) : list (string * str
     | Some lk => own ++ filter (fun lp => negb (existsb (fun op => String.eqb (snd lp) (snd op)) own)) (n_props (label lk))
     end
   end.
+
+(** ** specifications of the further routes *)
+(** pointwise readings of the link-based filters *)
+Definition spec_meta_filter (sec_id : string) (s : tree) : bool := opt_is (n_meta (label s)) sec_id.
+Definition spec_ref_ents_block (sel : block -> list ent) (sec_id : string) (b : option block) : list ent :=
+  match b with Some b => filter (fun e => opt_is (e_meta e) sec_id) (sel b) | None => [] end.
+Definition spec_ref_sources_block (sec_id : string) (b : option block) : list tree :=
+  match b with Some b => filter (spec_meta_filter sec_id) (flat_map all_nodes (b_sources b)) | None => [] end.
